@@ -1,0 +1,5 @@
+// Package verifhook provides yield points used by the deterministic
+// simulation harness. Without the "verif" build tag every function in this
+// package is an empty, inlinable no-op and the library behaves exactly as it
+// does without the calls.
+package verifhook
